@@ -173,6 +173,84 @@ def import_seed(prop, k):
     return True
 
 
+def import_benign(prop, k):
+    """Confirm a sub-agent's behaviour-preserving change in its scratch worktree (the equivalence test
+    passes on the clean tree; the patched tree builds, passes the unedited suite and the equivalence
+    test) and keep it as benign/<prop>-b<k>/."""
+    wt = os.path.join(os.environ.get("SEED_DIR", "/tmp/seed4"), prop)
+    src = os.path.join(wt, "_seed", "benign%s" % k)
+    demo = open(os.path.join(src, "equiv_test.go")).read()
+    first = demo.split("\n", 1)[0]
+    place = first.split("place in:")[1].strip().strip("`").strip() if "place in:" in first else "."
+    place = (place.split()[0] if place.split() else ".").rstrip("/").rstrip(",;") or "."
+    if not os.path.isdir(os.path.join(wt, place)) or place in ("repo root", "root", "/"):
+        place = "."
+    dst = os.path.join(wt, place, "zz_seed_equiv_test.go")
+    ran = []
+    def run(cmd):
+        r = sh(GOENV + cmd, cwd=wt)
+        ran.append({"cmd": cmd, "exit": r.returncode, "tail": r.stdout[-600:]})
+        return r
+    sh("git checkout -- . ", cwd=wt)
+    shutil.copy(os.path.join(src, "equiv_test.go"), dst)
+    try:
+        a = run("go test -count=1 -run TestSeed ./%s" % place)
+        os.remove(dst)
+        b = run("git apply _seed/benign%s/patch.diff && go build ./... && go test -count=1 ./..." % k)
+        shutil.copy(os.path.join(src, "equiv_test.go"), dst)
+        c = run("go test -count=1 -run TestSeed ./%s" % place)
+    finally:
+        if os.path.exists(dst):
+            os.remove(dst)
+        sh("git checkout -- .", cwd=wt)
+    ok = a.returncode == 0 and b.returncode == 0 and c.returncode == 0
+    name = "%s-b%s" % (prop, k)
+    print(name, "confirmed" if ok else "NOT CONFIRMED", [(x["exit"]) for x in ran])
+    if not ok:
+        for x in ran:
+            print(x)
+        return False
+    out = os.path.join(ROOT, "benign", name)
+    os.makedirs(out, exist_ok=True)
+    for f in ("patch.diff", "equiv_test.go", "notes.md"):
+        if os.path.exists(os.path.join(src, f)):
+            shutil.copy(os.path.join(src, f), os.path.join(out, f))
+    notes = open(os.path.join(src, "notes.md")).read() if os.path.exists(os.path.join(src, "notes.md")) else ""
+    json.dump({"property": prop, "checks": [prop], "origin": "fresh sub-agent given only the property text and a scratch worktree of /repo at %s, asked for a change that keeps the property true" % sh("git -C /repo rev-parse --short HEAD").stdout.strip(),
+               "test_placement": place, "why_property_still_holds": notes, "confirmed_by": ran},
+              open(os.path.join(out, "meta.json"), "w"), indent=1)
+    return True
+
+
+def benign(ids):
+    """Apply each behaviour-preserving change to a scratch worktree and run its property's quick check: the
+    check must not report a violation with a failing input (a broken correspondence, reported as
+    no-failing-input-found, is what a rewrite is entitled to; it is counted separately)."""
+    base = os.path.join(ROOT, "benign")
+    names = sorted(d for d in os.listdir(base) if os.path.exists(os.path.join(base, d, "patch.diff")) and (not ids or d in ids))
+
+    def one(n):
+        meta = json.load(open(os.path.join(base, n, "meta.json")))
+        def prep(wt):
+            return sh("git -C %s apply %s" % (wt, os.path.join(base, n, "patch.diff")))
+        return n, meta, with_tree("benign-" + n, prep, meta.get("checks", [meta["property"]]))
+    with concurrent.futures.ThreadPoolExecutor(4) as ex:
+        results = list(ex.map(one, names))
+    allok = True
+    summary = []
+    for n, meta, r in results:
+        c = r.get("checks", {}).get(meta["property"], {})
+        lines = c.get("lines", [])
+        alarm = any(l.startswith("VIOLATION") and "no-failing-input-found" not in l for l in lines) or c.get("exit") not in (0, 1)
+        corr = any(l.startswith("VIOLATION") and "no-failing-input-found" in l for l in lines)
+        quiet = c.get("exit") == 0
+        allok &= not alarm and not r.get("error")
+        summary.append({"id": n, "property": meta["property"], "quiet": quiet, "correspondence_only": corr, "false_alarm": alarm, "result": r})
+        print("%-12s %s quiet=%s correspondence-only=%s FALSE-ALARM=%s %s" % (n, meta["property"], quiet, corr, alarm, r.get("error", "")))
+    merge_results("benign.json", summary)
+    return allok
+
+
 def build_corpus():
     """corpus/<prop>.cases: the failing inputs the checks reported for reverted fixes and seeded changes
     (minimal cases first on every run, whatever the seed)."""
@@ -209,6 +287,10 @@ if __name__ == "__main__":
         sys.exit(0)
     if mode == "import-seed":
         ok = all([import_seed(sys.argv[2], k) for k in sys.argv[3:]])
+    elif mode == "import-benign":
+        ok = all([import_benign(sys.argv[2], k) for k in sys.argv[3:]])
+    elif mode == "benign":
+        ok = benign(sys.argv[2:])
     else:
         ok = revert_fixes(sys.argv[2:]) if mode == "revert-fixes" else seeded(sys.argv[2:])
     sys.exit(0 if ok else 1)
